@@ -406,7 +406,7 @@ def signature(param, assignment, message, detail):
 def main(tier, seed, only=None):
     rep = Report('C01', tier, seed)
     n = 3 if tier == 'quick' else 4
-    max_paths = 1500000 if tier == 'quick' else 30000000
+    max_paths = 1500000 if tier == 'quick' else 4000000
     rep.functions = ['control.Controller._schedule', '_input_dependencies_satisfied', '_comp_get_active_predecessors',
                      '_true_nodes_from_identifiers', 'node_is_active', 'get_compstate', '_fake_finish_with_state',
                      'finalize_submit_components', 'finishedCheck', 'kill_all_components', 'initialise(init_comps)',
